@@ -28,6 +28,9 @@ pub struct Profile {
     pub tiny_everything: bool,
     /// allow bulk ingestion when the tree is key-value separated
     pub blob_ingest: bool,
+    /// a key class `x~…` that is overwritten *and* weakly deleted without discipline; excluded
+    /// from model comparisons (used where only model-independent audits are decisive)
+    pub wild_weak_deletes: bool,
 }
 
 pub const W_WRITE: usize = 0;
@@ -74,6 +77,7 @@ impl Profile {
             w,
             tiny_everything: true,
             blob_ingest: false,
+            wild_weak_deletes: false,
         }
     }
 }
@@ -367,6 +371,29 @@ fn gen_write_item(
             return WriteItem { k, kind, v };
         }
     }
+    if p.wild_weak_deletes && r.chance(1, 4) {
+        let k = Bytes(format!("x~{}", r.below(4)).into_bytes());
+        return match r.below(5) {
+            0 | 1 => WriteItem {
+                k,
+                kind: WKind::WeakDel,
+                v: Bytes(vec![]),
+            },
+            2 => WriteItem {
+                k,
+                kind: WKind::Del,
+                v: Bytes(vec![]),
+            },
+            _ => {
+                let v = gen_value(st, r, cfg);
+                WriteItem {
+                    k,
+                    kind: WKind::Put,
+                    v,
+                }
+            }
+        };
+    }
     let k = r.pick(keys).clone();
     if r.chance(1, 4) {
         WriteItem {
@@ -594,6 +621,9 @@ pub fn gen_run(property: &str, seed: u64, p: &Profile) -> RunSpec {
     }
     let mut all_keys = keys;
     all_keys.extend(once);
+    if p.wild_weak_deletes {
+        all_keys.extend((0..4).map(|i| Bytes(format!("x~{i}").into_bytes())));
+    }
     if p.fifo {
         all_keys = (1..=st.fifo_counter)
             .map(|i| Bytes(format!("f{i:06}").into_bytes()))
